@@ -23,17 +23,17 @@ CLAIMED = {
    tech="AST->z3 VC generation, index-function arrays, where() specification axioms (deductive)"),
  "C01": dict(cat="other", ref="DESIGN.md 4/C01",
    text="Reader.__getitem__/read/read_samples proved equal to NumPy indexing of the whole calibrated, geometry-ordered array for every selector shape (int, any slice incl. negative steps and out-of-range bounds, "
-        "integer arrays) x every file size; raw_channel_order construction in __init__ against geometry_from_meta's contract; sync unscaled; file untouched. The contracts it rests on are re-checked by this check: C09's per-channel volts-per-bit vector (imec and nidq, every MN/MA/XA/DW composition), C08's geometry order and C11's contracts of Reader.open (the rows indexed are the complete frames of the file, whatever the metadata announce and whatever the warning option). Level other: cbin path and dtype of 0-d results rest on the bounded native stand-in over all shipped metas.",
+        "integer arrays) x every file size; raw_channel_order construction in __init__ against geometry_from_meta's contract; sync unscaled; file untouched. The contracts it rests on are re-checked by this check: C09's per-channel volts-per-bit vector (imec and nidq, every MN/MA/XA/DW composition), C08's geometry order and C11's contracts of Reader.open (the rows indexed are the complete frames of the file, whatever the metadata announce and whatever the warning option). Level other: cbin path and dtype of 0-d results rest on the bounded native stand-in over all shipped metas. The index returned for recordings without a site map (C08 default_layout) is re-checked.",
    note="A-NP-INDEX, A-REAL (which sample meets which gain; not float32 rounding), A-MTSCOMP. array x array selectors are outside the claim (outer vs point-wise not fixed by the statement). F-C01-1 (bare list index) was repaired.",
    tech="AST->z3 VC generation with abstract selector index functions (deductive) + bounded native stand-in"),
  "C09": dict(cat="other", ref="DESIGN.md 4/C09",
    text="Derived quantities proved for every probe generation/stream with symbolic numeric fields and an abstract IMRO table of symbolic length: s2v*gain*maxint == range, 1 on sync, length == nSavedChans; nidq segments; type/fs/counts/sync indices. "
-        "write_meta_data writes an integer list as the plain decimal digits of its entries separated by commas, for every value (structured strings); the rest of the textual read->write->read round trip is a bounded stand-in over a grammar-generated corpus + shipped files (string theories do not decide float()/repr()).",
+        "write_meta_data writes an integer list as the plain decimal digits of its entries separated by commas, for every value (structured strings); the rest of the textual read->write->read round trip is a bounded stand-in over a grammar-generated corpus + shipped files (string theories do not decide float()/repr()). Every derived-quantity reader leaves the parsed dictionary as parsed (frame obligations reads_only.*), and range_volts asked again after the caller edited its copy is again the range.",
    note="A-STR-FREE/A-SGLX (regex on imroTbl yields entries; split fields are the numbers). F-C09-1 (scalars < 1e-4) was repaired.",
    tech="AST->z3 VC generation over a symbolic metadata record (deductive) + bounded round-trip stand-in"),
  "C08": dict(cat="other", ref="DESIGN.md 4/C08",
    text="geometry_from_meta proved for site tables of any length in both encodings: the sort is a bijection moving every key together, ordered by (shank,row,-col); rc<->xy inverse on the three grids; the two encodings agree; split shank == restriction of the parent. "
-        "ADC tables: decided by exhaustive evaluation of adc_shifts over its whole finite domain (5 versions x nc 1..384) against the per-channel formula, stated as obligations (complete, no solver); canonical layouts: exhaustive native enumeration (every version x shank count against a per-channel description).",
+        "ADC tables: decided by exhaustive evaluation of adc_shifts over its whole finite domain (5 versions x nc 1..384) against the per-channel formula, stated as obligations (complete, no solver); canonical layouts: exhaustive native enumeration (every version x shank count against a per-channel description). The branch of geometry_from_meta without a site map (canonical layout x sort flag) and the independence of the ADC tables from what an earlier caller did to its copy are decided by exhaustive evaluation as well.",
    note="A-NP-SPEC (lexsort, where), A-SGLX, map-string parsing summarised by contract. Known finding F-C08-1 (ADC delays for non-prefix channel subsets). History effects (caching across calls) only in the bounded stand-in (derives twice).",
    tech="AST->z3 VC generation with permutation/where specification axioms (deductive) + exhaustive enumeration of tables"),
  "C16": dict(cat="other", ref="DESIGN.md 4/C16",
@@ -43,27 +43,27 @@ CLAIMED = {
    tech="AST->z3 VC generation with reduction/convolution specification axioms (deductive) + bounded native stand-in"),
  "C03": dict(cat="other", ref="DESIGN.md 4/C03",
    text="One symbolic iteration of the real window loop of _process_NP24 (read -> _ind2save -> _split2shanks): the block appended to each shank's AP file is exactly the original int16 samples [a_j,b_j) of that shank's columns + sync, "
-        "for every window index/size, recording length, processed length (init_params(nsamples) <= file length) and shank map; ranges tile [0,ns) (lemma over C17's contract); value exactness under the binary32 rounding model for every volts-per-bit factor; reconstruction loop body scatters every column back; init_params: by default the whole recording, and the window / overlap / taper / ratio the window harnesses assume (a window that is not a multiple of 12 is refused; for every calibrated sampling rate of the probe); integer lists of the metadata written back as plain digits (C09 contract re-checked); output preparation for every shank map, ids not 0..n-1 included (C04 contract re-checked).",
+        "for every window index/size, recording length, processed length (init_params(nsamples) <= file length) and shank map; ranges tile [0,ns) (lemma over C17's contract); value exactness under the binary32 rounding model for every volts-per-bit factor; reconstruction loop body scatters every column back; init_params: by default the whole recording, and the window / overlap / taper / ratio the window harnesses assume (a window that is not a multiple of 12 is refused; for every calibrated sampling rate of the probe); integer lists of the metadata written back as plain digits (C09 contract re-checked); output preparation for every shank map, ids not 0..n-1 included (C04 contract re-checked). NP2Reconstructor._reconstruct executed whole over a ghost file system in which the output may already exist with any size: the binary is started empty, written over windows that tile [0, nsamples) and closed; init_params called again on the same object gives the documented defaults again.",
    note="Channel lists (where(shank==s)+sync, partition) are a precondition; metadata, channel-subset strings and end-to-end bytes (all 65536 values x catalogued gains, non-contiguous / interleaved shank maps, nsamples < file length, channel-subset strings through a metadata file) are a bounded stand-in on real files. Re-checks C17's generator contract. A-FPSTD for the value obligation.",
    tech="AST->z3 VC generation, generator contract reuse, standard floating-point error model (deductive) + bounded end-to-end"),
  "C12": dict(cat="other", ref="DESIGN.md 4/C12",
    text="LF half of the same loop iteration: per-window row counts tile [0, ceil(ns/12)), sync column == every 12th AP sync word, data columns == decimated filter output of the cosine-tapered calibrated window (data-flow, filter opaque); "
-        "_writemetadata_lf: 2500 Hz, per-shank channel counts, size, provenance keys, source metadata untouched; the LF output of a first or forced run starts empty (NP2.1 and NP2.4 prepare-files contracts, shared with C04); C17's generator contract re-checked.",
+        "_writemetadata_lf: 2500 Hz, per-shank channel counts, size, provenance keys, source metadata untouched; the LF output of a first or forced run starts empty (NP2.1 and NP2.4 prepare-files contracts, shared with C04); C17's generator contract re-checked. Rests also on C04's contract of compress_NP21 (the kept reader reads channels in acquisition order) and on the outputs holding nothing when the extraction starts.",
    note="Numeric equality with whole-trace low-pass + decimation and window independence (<= 1 LSB) and forced re-runs over existing LF files / re-used converter objects are a bounded stand-in on real files (sosfiltfilt is opaque: A-SCIPY shape only).",
    tech="AST->z3 VC generation with an opaque-filter summary (deductive) + bounded numeric stand-in"),
  "C06": dict(cat="other", ref="DESIGN.md 4/C06",
    text="One symbolic batch of the real per-worker loop (nested my_function located by name, free variables symbolic): file position before each write, rows == kept range with the documented taper margins, sync columns bit-identical, "
-        "saturation slice (flags computed on the calibrated samples as read, before tapering), RMS/timestamp positions, loop invariant position == f(batch index), padding; the same for float32 output with the byte sizes computed by executing the set-up statements (positions in bytes of the output type); the set-up statements that create / size the files under the ghost file system: a fresh run truncates output, RMS and timestamp files, an appending run starts each at its current end, the per-sample saturation file is created with or without the rms (F-C06-2, repaired) and, when appending, keeps the entries of the runs already in the output and adds this run's after them (F-C06-3, repaired); the worker's start batch and boundary formulas; lemmas: batches tile [0,ns), consecutive workers leave no gap, writes are position-determined.",
+        "saturation slice (flags computed on the calibrated samples as read, before tapering), RMS/timestamp positions, loop invariant position == f(batch index), padding; the same for float32 output with the byte sizes computed by executing the set-up statements (positions in bytes of the output type); the set-up statements that create / size the files under the ghost file system: a fresh run truncates output, RMS and timestamp files, an appending run starts each at its current end, the per-sample saturation file is created with or without the rms (F-C06-2, repaired) and, when appending, keeps the entries of the runs already in the output and adds this run's after them (F-C06-3, repaired); the worker's start batch and boundary formulas; lemmas: batches tile [0,ns), consecutive workers leave no gap, writes are position-determined. The statements after the workers have finished run under contract too: RMS rows (batches x channels), timestamps and the per-sample saturation vector are published under the quality folder asked for, and the per-sample file stays next to the output for the next appending run.",
    note="All filtering is opaque (shapes only); saturation() through C16's contract; joblib schedules are not modelled (position-determinism is what is proved); byte identity across worker counts (incl. more workers than batches) / QC lengths via the bounded stand-in with a NumPy/SciPy shim for pyfftw. F-C06-1 (phantom batch) was repaired: a worker whose first batch is not real returns at once, proved to touch nothing and to lose nothing.",
    tech="AST->z3 VC generation on a nested closure with ghost file positions + arithmetic lemmas (deductive) + bounded native stand-in"),
  "C02": dict(cat="other", ref="DESIGN.md 4/C02",
    text="Ghost-file-system contracts: companion resolution for data / compressed / metadata paths under every combination of existing files; compress_file, decompress_file, decompress_to_scratch with a normal and an exceptional outcome of mtscomp: "
-        "final names only ever carry complete files (also after an earlier failed attempt), sources removed only after their replacement is complete, a failed re-compression does not remove the header of a pair published earlier, lossless by D(C(b))=b; same shape through .bin and .cbin rests on C11's contracts of both branches of Reader.open (re-checked here).",
+        "final names only ever carry complete files (also after an earlier failed attempt), sources removed only after their replacement is complete, a failed re-compression does not remove the header of a pair published earlier, lossless by D(C(b))=b; same shape through .bin and .cbin rests on C11's contracts of both branches of Reader.open (re-checked here). decompress_file(out=<another folder>, keep_original both ways) removes its own source and header only and leaves the files of another recording next to the output untouched; the metadata next to a scratch copy is the recording's own whatever the scratch folder held.",
    note="mtscomp is external: assumed contract (A-MTSCOMP) validated natively: reader on .bin vs .cbin around chunk boundaries, byte round trip, failures injected at each chunk, fail-then-retry histories, UUID-named companions with both bands of a probe in one folder (bounded). Known finding F-C02-1 (negative steps on .cbin).",
    tech="AST->z3 VC generation over a ghost file system with exceptional post-conditions (deductive) + bounded native stand-in"),
  "C04": dict(cat="other", ref="DESIGN.md 4/C04",
    text="Contracts of every step of NP2Converter.process over the ghost file system: _prepare_files_NP24 (no-op on repeat, outputs never alias the input, channel lists = where(shank==s)+sync), check_NP24 (every window compared, flag only after the loop; the whole function through the interpreter: every exceptional way out leaves check_completed unset), _prepare_files_NP21 (forced / first run starts the LF output empty), "
-        "epilogue order (original unlinked only after check_NP24 returned normally with both flags, and only when the whole recording - not just the first nsamples samples - was split and verified: F-C04-2, repaired), delete_NP24 guard, compress_NP24/NP21 through C02's compress_file incl. failures, early exits (an already split input is refused before any output is prepared, with or without overwrite; probes that are neither NP2.1 nor NP2.4 - NP1 generations, NP Ultra - are refused untouched), a flag left by an earlier call on the same converter object does not decide the next one, init_params reset; rests on C03's init_params contract (every sample is split and verified before the original goes).",
+        "epilogue order (original unlinked only after check_NP24 returned normally with both flags, and only when the whole recording - not just the first nsamples samples - was split and verified: F-C04-2, repaired), delete_NP24 guard, compress_NP24/NP21 through C02's compress_file incl. failures, early exits (an already split input is refused before any output is prepared, with or without overwrite; probes that are neither NP2.1 nor NP2.4 - NP1 generations, NP Ultra - are refused untouched), a flag left by an earlier call on the same converter object does not decide the next one, init_params reset; rests on C03's init_params contract (every sample is split and verified before the original goes). The LF output of a single-shank probe is never the original whatever the file is called; the deletion guard is stated against a (possibly compressed) original whose size on disk is unrelated to its sample count; output files hold nothing when the extraction starts; the reader kept after compress_NP21 reads as the one __init__ opened (F-C04-3 found this way and repaired).",
    note="Histories are handled inductively (one guarded unlink of the original); interruptions = exceptions of external calls; real run histories on files (first/repeat/overwrite/corrupted split/failed verification then delete_NP24()/NP2.1/NP1) are a bounded stand-in. F-C04-1 (retry after partial folder creation) was repaired.",
    tech="AST->z3 VC generation over a ghost file system, effect-log ordering obligations (deductive) + bounded histories"),
  "C13": dict(cat="other", ref="DESIGN.md 4/C13",
@@ -83,7 +83,7 @@ CLAIMED = {
    tech="AST->z3 VC generation with FFT shape/Hermitian specification axioms (deductive) + bounded impulse-basis stand-in"),
  "C05": dict(cat="other", ref="DESIGN.md 4/C05",
    text="car: exactly one channel-axis reduction with the requested operator is subtracted, per-collection == per-group; kfilt/fk recursion over collections forwards every setting, hands each group over as its own channels in order and puts the result back on its rows; kfilt body: gain control only when a window is given, mirrored padding, padding rows dropped and gain multiplied back; destripe data-flow: high-pass -> fshift by +sample_shift along time -> interpolation -> "
-        "spatial filter on rows with label != 3, sync untouched; destripe called twice with the same settings dictionaries: the spatial step and the high-pass get exactly the caller's settings both times and the dictionaries are left as given; agc: out*gain == in wherever the returned gain is not zero, data untouched where it is zero, gain >= 0 (stated on the returned values only); the ADC delay tables destripe re-aligns with: C08's exhaustive table contract and C15's interpolation contract (only good / outside-brain channels are sources) re-checked.",
+        "spatial filter on rows with label != 3, sync untouched; destripe called twice with the same settings dictionaries: the spatial step and the high-pass get exactly the caller's settings both times and the dictionaries are left as given; agc: out*gain == in wherever the returned gain is not zero, data untouched where it is zero, gain >= 0 (stated on the returned values only); the ADC delay tables destripe re-aligns with: C08's exhaustive table contract and C15's interpolation contract (only good / outside-brain channels are sources) re-checked. The header of one shank of a multi-shank probe carries each channel's own delay (C08 split_restriction re-checked).",
    note="median/mean are opaque reductions with translation equivariance (A-NP-SPEC); butter/sosfiltfilt/fshift/convolve opaque with shapes (A-SCIPY/A-FFT). 40 dB stripe attenuation / 90 % spike retention are numeric: bounded stand-in on synthetic stripes.",
    tech="AST->z3 VC generation with call-log data-flow obligations and modular recursion contracts (deductive) + bounded numeric stand-in"),
  "C07": dict(cat="other", ref="DESIGN.md 4/C07",
